@@ -240,7 +240,12 @@ func dominatingStore(f *ssa.Function, load *ssa.UnOp, fa *ssa.FieldAddr) *ssa.St
 }
 
 // ruleA11 examines every store into Logger.context / Logger.hooks in package zerolog.
-func ruleA11(r *Run, p *Prog) {
+func ruleA11(r *Run, p *Prog) { ruleA11Only(r, p, nil) }
+
+// ruleA11Only: with only != nil, just the stores made by the selected functions are judged (C18 needs
+// Logger.With's fresh copy: hlog.NewHandler derives every request's logger through it), without the
+// module-wide clauses.
+func ruleA11Only(r *Run, p *Prog, only func(*ssa.Function) bool) {
 	logger := p.NamedType("", "Logger")
 	if !r.Anchor(logger != nil, "A11", "type Logger") {
 		return
@@ -265,6 +270,9 @@ func ruleA11(r *Run, p *Prog) {
 	// stores are judged in the functions that are judged on their own: a private helper such as
 	// "return a copy of l with this context" is part of each caller, where the stored slice's origin is known
 	for _, f := range p.RootViews([]string{""}, "", nil) {
+		if only != nil && !only(f) {
+			continue
+		}
 		eachInstr(f, func(b *ssa.BasicBlock, i int, in ssa.Instruction) {
 			sx, ok := in.(*ssa.Store)
 			if !ok {
@@ -321,13 +329,20 @@ func ruleA11(r *Run, p *Prog) {
 		r.Ob("A11", k, a.pos, false, true, fmt.Sprintf("%d value-receiver methods (e.g. %s) append to the receiver's slice in place: branching twice from one intermediate value makes the first branch see the second branch's bytes", a.n, strings.Join(a.ex, ", ")))
 	}
 	r.Count("a11_stores", nStores)
-	if nStores < 55 {
+	if only != nil {
+		if nStores < 1 {
+			r.Fail("A11", "store-floor", "-", "no store into a Logger slice field found in the selected functions")
+		}
+	} else if nStores < 55 {
 		r.Fail("A11", "store-floor", "-", fmt.Sprintf("only %d stores into Logger slice fields found (≥ 60 on the pinned tree)", nStores))
 	}
 	// entering builder mode: a Logger method that returns a Context must give it a fresh context
 	// on every path (Context field adders append in place)
 	for _, m := range p.Methods("", "Logger", true) {
 		if m.Signature.Results().Len() != 1 || !typeIs(m.Signature.Results().At(0).Type(), modPath, "Context") {
+			continue
+		}
+		if only != nil && !only(m) {
 			continue
 		}
 		var ctxField *types.Var
@@ -347,6 +362,9 @@ func ruleA11(r *Run, p *Prog) {
 		m = p.View(m, "", nil)
 		leak, path := pathExists(m, nil, isReturn, isCtxStore, nil)
 		r.Ob("A11", FnName(m)+"/fresh-context-on-every-path", p.Pos(m.Pos()), !leak, true, tern(!leak, "every path gives the returned Context a newly stored context buffer", "some path returns a Context that still carries the receiver's own context slice: field adders then append into the parent's backing array"+pathHint(p, path)))
+	}
+	if only != nil {
+		return
 	}
 	// derivation methods never write through a pointer receiver (except the documented UpdateContext)
 	ucHelpers := map[*ssa.Function]bool{}
